@@ -110,3 +110,56 @@ def run (c : Cfg) : List Act → Cfg
   | a :: r => run (if enabled c a then step c a else c) r
 
 end AslModel.ThreadEnd
+
+/-! ## `Copies` — Thread objects sharing one reference-counted `State_` (9bb3303, 7f3debf)
+
+Copying or assigning a started `Thread` shares its `State_` (the finished flag and a count); the running function thread
+holds one more reference until it is over.  Any number of copies; objects are dropped in any order, before or after the
+thread ends. -/
+namespace AslModel.ThreadCopies
+
+structure Cfg where
+  objs : Nat            -- live Thread objects sharing the state
+  worker : Nat          -- 0 running · 1 has set `finished` · 2 has released its reference (thread over)
+  refs : Nat            -- `State_::rc`
+  stateAlive : Bool
+  finished : Bool       -- the flag inside the state
+  frees : Nat           -- how often the state was released
+  bad : Bool            -- the released state was used, or released twice
+deriving Repr, DecidableEq
+
+inductive Act where
+  | copy                -- `Thread b(a)` / `b = a` / `array << a` through a live object
+  | drop                -- a Thread object sharing the state is destroyed (or assigned another thread)
+  | finish              -- the worker stores `finished = true` through its own reference
+  | release             -- the worker releases its reference
+deriving Repr, DecidableEq
+
+/-- one object (the one the thread was started through) and the worker's own reference -/
+def init : Cfg := { objs := 1, worker := 0, refs := 2, stateAlive := true, finished := false, frees := 0, bad := false }
+
+def enabled (c : Cfg) : Act → Bool
+  | Act.copy => 0 < c.objs && !c.bad
+  | Act.drop => 0 < c.objs && !c.bad
+  | Act.finish => c.worker == 0 && !c.bad
+  | Act.release => c.worker == 1 && !c.bad
+
+def unref (c : Cfg) : Cfg :=
+  if !c.stateAlive || c.refs == 0 then { c with bad := true }
+  else if c.refs == 1 then { c with refs := 0, stateAlive := false, frees := c.frees + 1 }
+  else { c with refs := c.refs - 1 }
+
+def step (c : Cfg) : Act → Cfg
+  | Act.copy => if c.stateAlive then { c with objs := c.objs + 1, refs := c.refs + 1 } else { c with bad := true }
+  | Act.drop => unref { c with objs := c.objs - 1 }
+  | Act.finish => if c.stateAlive then { c with worker := 1, finished := true } else { c with bad := true }
+  | Act.release => unref { c with worker := 2 }
+
+def run (c : Cfg) : List Act → Cfg
+  | [] => c
+  | a :: r => run (if enabled c a then step c a else c) r
+
+/-- `finished()` through a live object: reads the shared state -/
+def readFinished (c : Cfg) : Option Bool := if 0 < c.objs && c.stateAlive then some c.finished else none
+
+end AslModel.ThreadCopies
